@@ -35,8 +35,8 @@ ASSUMPTIONS = [
     "when all checks pass but the plug-in itself raises, only 'nothing is created or modified' is required",
     "the recording wrapper around <plugin>.Generator.generate is installed from outside (no source hook)",
 ]
-FLOORS = {"regenerated_over_sibling_output": 0.15, "reject": 0.25, "accept": 0.15, "reject_would_write": 0.15, "accept_collision": 0.02, "entry_cli": 0.2,
-          "gen_dbc": 0.1, "gen_can_c": 0.1, "gen_cpp": 0.1, "gen_nop": 0.1}
+FLOORS = {"regenerated_over_sibling_output": 0.15, "reject": 0.15, "accept": 0.15, "reject_would_write": 0.10, "accept_collision": 0.02, "entry_cli": 0.15,
+          "gen_dbc": 0.07, "gen_can_c": 0.07, "gen_cpp": 0.07, "gen_nop": 0.07}
 
 GENERATORS = ["dbc", "can_c", "cpp", "nop"]
 PRE_NAMES = ["default.fcp", "fcp.h", "global_can.h", "can_frame.h", "x.c", "old.h", "notes.txt", "sub/keep.txt",
